@@ -52,8 +52,10 @@ def _traj(n_atoms, cell, seed, n=N):
     xyz = np.round(rng.rand(n, n_atoms, 3) * 2 + 0.1, 3).astype(np.float32)
     kw = {}
     if cell:
-        kw = dict(unitcell_lengths=np.round(np.full((n, 3), 4.0) + 0.125 * np.arange(n)[:, None], 3),
-                  unitcell_angles=np.full((n, 3), 90.0))
+        ang = np.full((n, 3), 90.0)
+        if cell == "mixed":      # variable-cell run: the cell SHAPE changes, frames 1, 3, ... are sheared, the others rectangular
+            ang[1::2] = [80.0, 95.0, 70.0]
+        kw = dict(unitcell_lengths=np.round(np.full((n, 3), 4.0) + 0.125 * np.arange(n)[:, None], 3), unitcell_angles=ang)
     return md.Trajectory(xyz, top, time=np.arange(n) * 2.0 + 1.0, **kw)
 
 
@@ -96,8 +98,9 @@ def _diff(a, b):
         return "times %s vs %s" % (np.asarray(a.time).tolist(), np.asarray(b.time).tolist())
     if (a.unitcell_lengths is None) != (b.unitcell_lengths is None):
         return "cell present %s vs %s" % (a.unitcell_lengths is not None, b.unitcell_lengths is not None)
-    if a.unitcell_lengths is not None and not (np.array_equal(a.unitcell_lengths, b.unitcell_lengths)
-                                               and np.array_equal(a.unitcell_angles, b.unitcell_angles)):
+    f32 = lambda x: np.asarray(x, np.float32)      # a slice of a loaded trajectory holds its cell as float32
+    if a.unitcell_lengths is not None and not (np.array_equal(f32(a.unitcell_lengths), f32(b.unitcell_lengths))
+                                               and np.array_equal(f32(a.unitcell_angles), f32(b.unitcell_angles))):
         return "unit cells differ"
     return None
 
@@ -168,6 +171,8 @@ def _fmt_jobs(quick):
         base = fmt.split("-")[0]
         cells = [True] if base in NEEDS_CELL else ([False] if base in NO_CELL_FORMATS else [True, False])
         times = [True, False] if base in HAS_TIME_ARG and base != "dtr" else [True]   # dtr requires times
+        if base in ("h5", "nc", "dcd", "xtc", "trr", "gro", "lammpstrj", "dtr"):     # formats that store the angles per frame
+            cells = cells + ["mixed"]
         for cell, time in itertools.product(cells, times):
             jobs.append((fmt, cell, time))
     return jobs
